@@ -1502,6 +1502,10 @@ func (c *clipperBase) checkJoinRight(e *Active, pt Point64, checkCurrX bool) {
 	if !isCollinear(e.top, pt, next.top) {
 		return
 	}
+	// edges that merely share their top vertex pass the test above trivially
+	if e.top == next.top && !isCollinear(e.bot, e.top, next.bot) {
+		return
+	}
 
 	if e.outrec.idx == next.outrec.idx {
 		c.addLocalMaxPoly(e, next, pt)
@@ -1537,6 +1541,10 @@ func (c *clipperBase) checkJoinLeft(e *Active, pt Point64, checkCurrX bool) {
 	}
 
 	if !isCollinear(e.top, pt, prev.top) {
+		return
+	}
+	// edges that merely share their top vertex pass the test above trivially
+	if e.top == prev.top && !isCollinear(e.bot, e.top, prev.bot) {
 		return
 	}
 
